@@ -52,8 +52,10 @@ pub trait Keychain: Sized + Clone {
         ensures r matches Ok(k) ==> k == self.spec_derive(amount, *id);
     // Pedersen commitment value*H + derive_key(..)*G; fails only where the key derivation fails
     fn commit(&self, amount: u64, id: &Identifier, switch: SwitchCommitmentType) -> (r: Result<Commitment, grin_keychain::Error>)
-        ensures spec_commit_defined(amount, *id) ==> r is Ok;
+        ensures spec_commit_defined(amount, *id) ==> r is Ok, r matches Ok(c) ==> c == spec_keychain_commit(amount, *id);
 }
+// (a function of amount and path for one seed)
+pub uninterp spec fn spec_keychain_commit(amount: u64, id: Identifier) -> Commitment;
 // key derivation (and hence commit) is defined for this amount / path (A-crypto: true for every path the wallet itself derived)
 pub uninterp spec fn spec_commit_defined(amount: u64, id: Identifier) -> bool;
 pub uninterp spec fn spec_commit_from_vec(b: Seq<u8>) -> Commitment;
